@@ -19,3 +19,12 @@ open Bpmn.Props.C15
 #print axioms C15_counterexample_value_field
 #print axioms mini2_roundtrip_by_value
 #print axioms current_value_fields_dichotomy
+#print axioms roundtrip_general
+#print axioms roundtrip_keeps_shape
+#print axioms roundtrip_identity
+#print axioms C15_holds
+#print axioms mini_table_check
+#print axioms mini2_table_check
+#print axioms current_rt_table
+#print axioms current_roundtrip
+#print axioms current_C15
